@@ -87,6 +87,19 @@ def run(ck):
             c = bytearray(b)
             c[i] = rng.choice([0, 1, 2, 0x7f, 0x80, 0xff, c[i] ^ 1, c[i] ^ 0x80, rng.randrange(256)])
             cases.append((tn, hexs(bytes(c)), "corrupted"))
+    # strings of every length up to 90 (and around the 2-byte size prefix) with one byte made invalid at every position: plain text, seq(str), dictionary key
+    for n in list(range(1, 91)) + [127, 128, 129, 255, 256, 257]:
+        body = bytes(97 + (i % 26) for i in range(n))
+        pre = bytes([n << 2]) if n < 64 else bytes([((n << 2) | 1) & 0xff, (n << 2) >> 8])
+        for pos in (range(n) if n <= 90 else (0, n // 2, n - 9, n - 8, n - 7, n - 2, n - 1)):
+            for bad in ((0x80, 0xC3, 0xFF) if ck.tier == "thorough" or pos >= n - 9 or pos < 2 else (0x80,)):
+                c = bytearray(body)
+                c[pos] = bad
+                cases.append(("str", hexs(pre + bytes(c)), "string-bad-byte"))
+                if pos in (0, n - 1, n - 3):
+                    cases.append(("seq(str)", hexs(b"\x04" + pre + bytes(c)), "string-bad-byte"))
+                    cases.append(("dict(str,u8)", hexs(b"\x04" + pre + bytes(c) + b"\x07"), "string-bad-byte"))
+        cases.append(("str", hexs(pre + body), "valid"))
     # tagged-field skipping with every tag width, incl. 4- and 8-byte tags beyond the i32 range
     def varint(v, width):
         code = {1: 0, 2: 1, 4: 2, 8: 3}[width]
